@@ -336,7 +336,9 @@ SETTERS_COUNTED = {"C01": 4, "C02": 4, "C04": 1, "C05": 20, "C06": 9, "C07": 3, 
 
 # C06: lazy values and the collector read their values through `impl StatefulDecode for &mut D` and LazyDataToken::into_value (the eager
 # reader owns its decoder); C01/C02: tokens of every value come from parser/src/dataset/mod.rs
-EXTRA_FILES = {"C06": ["parser/src/stateful/decode.rs", "parser/src/dataset/mod.rs"]}
+EXTRA_FILES = {"C06": ["parser/src/stateful/decode.rs", "parser/src/dataset/mod.rs"],
+               # "no PDU longer than the peer's maximum" also holds on the send_pdata path: the writers are built in pdata.rs
+               "C29": ["ul/src/association/pdata.rs"], "C33": ["ul/src/association/pdata.rs"]}
 
 
 def check_property(chk, pid):
